@@ -447,7 +447,7 @@ class Evaluator:
                 P.mem[name] = v
                 self.trace.writes.setdefault(name, []).append(loc)
                 return
-            P.events.append(('write-through', p, loc))
+            P.events.append(('write-through', p, loc, v))
             self.trace.writes.setdefault('*' + fmt(p)[:40], []).append(loc)
             return
         if k == 'global':
@@ -566,6 +566,11 @@ class Evaluator:
                         self.trace.writes.setdefault(path, []).append(loc)
                         return ('sym', path)
                 if n in ('operator=', 'operator+=') and ob.get('k') == 'local':
+                    cur_ = P.locals.get((fr['id'], ob['id']))
+                    if cur_ is not None and cur_[0] == 'alias' and n == 'operator=' and len(args) > 1:
+                        # reference local: the assignment goes to what it is bound to
+                        self.assign(args_e[0], args[1], P, fr, loc)
+                        return args[0]
                     P.locals[(fr['id'], ob['id'])] = args[1] if n == 'operator=' and len(args) > 1 else ('call', 'container:' + n, args)
                     return args[0]
                 if n in ('operator++', 'operator--') and ob.get('k') == 'local':
@@ -1093,7 +1098,7 @@ class Evaluator:
                             (tgt.get('k') == 'call' and tgt.get('n') in ('operator[]', 'operator*', 'at')):
                         P.locals[(fr['id'], v['id'])] = ('alias', v['init'], fr)
                         continue
-                if v.get('static') and not (ty.startswith('const ') or ' const' in ty or ty.endswith('const')):
+                if v.get('static') and not const_object_type(ty):
                     # a mutable function-local static keeps whatever an earlier call left in it: unknown on entry
                     P.locals[(fr['id'], v['id'])] = ('sym', 'static:%s:%s' % (fr['fn'].q if fr.get('fn') is not None else '?', v['n']))
                     continue
@@ -1447,7 +1452,17 @@ class Evaluator:
                     changed_m.setdefault(kx, []).append(v)
         npre = len(P.events)
         cond_t = self.E(s['c'], P.fork(), fr) if s.get('c') is not None else None
-        P.events.append(('loop', (cond_t, tuple((bp.kind, tuple(bp.conds[len(P.conds):]), tuple(bp.events[npre:])) for bp in body_paths)), s.get('l')))
+        def deltas(bp):
+            # what one iteration along this body path leaves in the variables it assigns (pseudo-events closing the path)
+            d_ = []
+            for kx, v in bp.locals.items():
+                if kx in before_l and before_l.get(kx) != v and kx[0] == fr['id'] and kx[1] in loc:
+                    d_.append(('delta', (loc[kx[1]], v), s.get('l')))
+            for kx, v in bp.mem.items():
+                if kx in before_m and before_m.get(kx) != v:
+                    d_.append(('delta', (kx, v), s.get('l')))
+            return tuple(d_)
+        P.events.append(('loop', (cond_t, tuple((bp.kind, tuple(bp.conds[len(P.conds):]), tuple(bp.events[npre:]) + deltas(bp)) for bp in body_paths)), s.get('l')))
         for kx, vs in changed_l.items():
             P.locals[kx] = ('call', 'loop', tuple(vs))
         for kx, vs in changed_m.items():
@@ -1471,6 +1486,17 @@ class Evaluator:
         fr = {'id': self.new_frame_id(), 'args': args, 'this': '', 'depth': 0, 'fn': fn}
         outs = self.exec_block(stmts(fn.body), [Path()], fr, top=True)
         return outs
+
+
+def const_object_type(ty):
+    """is an object of (clang-spelled) type ty itself immutable: `const T`, `T *const`, arrays of those - not `const T *`"""
+    import re
+    ty = re.sub(r'(\[[^\]]*\])+$', '', str(ty).strip()).strip()
+    if ty.endswith('const'):
+        return True
+    if '*' in ty or '&' in ty:
+        return False
+    return ty.startswith('const ')
 
 
 def _first_ite(t):
